@@ -9,6 +9,7 @@ from pathlib import Path
 
 import numpy as np
 
+from . import cfront
 from .kir import Arr, BudgetExceeded, Interp
 from .poly import CPoly, Ctx, KsymError, Poly
 from .uflref import Inputs
@@ -79,7 +80,7 @@ def build_so(c_text: str, tag: str = "k", extra_flags=()) -> ctypes.CDLL:
     if not so.exists():
         cf.write_text(c_text)
         r = subprocess.run(
-            ["gcc", "-std=c17", "-O1", "-fPIC", "-shared", "-I/repo/ffcx/codegeneration", *extra_flags, str(cf), "-o", str(so), "-lm"],
+            ["gcc", "-std=c17", "-O1", "-fPIC", "-shared", "-I" + cfront.UFCX_DIR, *extra_flags, str(cf), "-o", str(so), "-lm"],
             capture_output=True, text=True,
         )
         if r.returncode:
